@@ -115,6 +115,9 @@ func plmnByIndex(i int) (mcc, mnc string) {
 
 func runC11(ctx *Ctx) {
 	r := ctx.R
+	if ctx.Isolate() {
+		return
+	}
 	r.Rule = "exhaustive: all 1000 MCC x 1100 MNC (100 two-digit + 1000 three-digit) x MSIN lengths 1..10 (digits from VERIF_SEED; plus fixed 0..0, 9..9, 1234567890 for a PLMN slice); " +
 		"EncodeSuci output decoded by an independent TS 24.501 9.11.3.4 decoder must give back MCC, MNC, MSIN (format IMSI, type SUCI, routing indicator 0, null scheme, key id 0); octets 1..3 == reference PLMN encoding == nasConvert.PlmnIDToNas; " +
 		"wire part: PLMN in the NG Setup request (GlobalRANNodeID, SupportedTAList broadcast PLMN) and in the user-location IE of InitialUEMessage / UplinkNASTransport, SUCI inside Registration and Deregistration Request; " +
@@ -173,7 +176,10 @@ func runC11(ctx *Ctx) {
 	r.Sample("imsi=00101" + "0000000001 mncLen=2 -> EncodeSuci -> independent decoder")
 	r.Sample("imsi=999999" + "123456789 mncLen=3")
 
-	// wire part (package-level TestPlmn: sequential)
+	// wire part (package-level TestPlmn: one sequential history, in the lead shard)
+	if !ctx.Lead() {
+		return
+	}
 	step := 37
 	if ctx.Thorough {
 		step = 1
